@@ -158,6 +158,14 @@ func oracleC07(c *Case, res *Result) []Violation {
 		}
 	}
 	tag := fmt.Sprintf("/ap%d/%s@%s", ap, fk, fop)
+	for _, o := range sub.Ops {
+		if len(m[c.Stores[o.S].Name]) == 0 {
+			// the subject is the first to put anything into this store (the new root node is
+			// registered as active during phase 1: see the C08/C09 emptystore findings)
+			tag = "/emptystore" + tag
+			break
+		}
+	}
 	if sr.Outcome == "panic" {
 		return []Violation{{Class: panicClass(sr.Panic) + tag, Msg: sr.Panic}}
 	}
